@@ -373,3 +373,102 @@ func Program(r *rand.Rand) string {
 	g := &gen{r: r}
 	return g.Program()
 }
+
+// EmbedProgram generates programs in which structs embed fields and nested paths of themselves while other
+// declarations (written before or after, directly or through another embedded field) add conjuncts to those very
+// paths.  The leaves are integers and the base fields p < q < r of a struct only mention earlier base names as inner
+// labels, so every program is finite and acyclic: its value is the same for every order of declarations.
+func EmbedProgram(r *rand.Rand, withDefs bool) string {
+	pick := func(xs []string) string { return xs[r.IntN(len(xs))] }
+	var b strings.Builder
+	base := []string{"p", "q", "r"}
+	inner := []string{"a", "b"}
+	leafs := []string{"x", "y", "z", "w"}
+	leaf := func() string {
+		l := pick(leafs)
+		// one value per leaf name: repeated declarations agree; markers vary
+		v := map[string]int{"x": 1, "y": 2, "z": 3, "w": 4}[l]
+		switch r.IntN(8) {
+		case 0:
+			return fmt.Sprintf("%s?: int", l)
+		case 1:
+			return fmt.Sprintf("%s: int", l)
+		case 2:
+			return fmt.Sprintf("%s: *%d | int", l, v)
+		default:
+			return fmt.Sprintf("%s: %d", l, v)
+		}
+	}
+	leafStruct := func() string {
+		n := 1 + r.IntN(2)
+		var parts []string
+		for i := 0; i < n; i++ {
+			parts = append(parts, leaf())
+		}
+		if r.IntN(8) == 0 {
+			parts = append(parts, "...")
+		}
+		return "{" + strings.Join(parts, ", ") + "}"
+	}
+	nDefs := r.IntN(2)
+	if !withDefs {
+		nDefs = 0
+	}
+	for d := 0; d < nDefs; d++ {
+		fmt.Fprintf(&b, "#E%d: {%s: %s: %s}\n", d, pick(base[:2]), pick(inner), leafStruct())
+	}
+	nT := 1 + r.IntN(3)
+	for t := 0; t < nT; t++ {
+		name := fmt.Sprintf("t%d", t)
+		if withDefs && r.IntN(6) == 0 {
+			name = fmt.Sprintf("#T%d", t)
+		}
+		var decls []string
+		// paths that exist in this struct: base name followed by labels
+		var paths [][]string
+		nb := 2 + r.IntN(2)
+		for bi := 0; bi < nb; bi++ {
+			bn := base[bi]
+			for k := 0; k < 1+r.IntN(2); k++ {
+				// bn: [earlier base:]* inner: {leafs}
+				path := []string{bn}
+				if bi > 0 && r.IntN(2) == 0 {
+					path = append(path, base[r.IntN(bi)])
+					if len(path) == 2 && path[1] != base[0] && r.IntN(2) == 0 {
+						path = append(path, base[0])
+					}
+				}
+				path = append(path, pick(inner))
+				decls = append(decls, strings.Join(path, ": ")+": "+leafStruct())
+				paths = append(paths, path)
+			}
+		}
+		// embeddings of own fields and of nested paths of own fields
+		ne := 1 + r.IntN(3)
+		for k := 0; k < ne; k++ {
+			p := paths[r.IntN(len(paths))]
+			cut := 1 + r.IntN(len(p))
+			// never embed a leaf struct's parent chain that ends in a base name used as a field of this struct at
+			// top level only: any prefix is a struct
+			decls = append(decls, strings.Join(p[:cut], "."))
+		}
+		if nDefs > 0 && r.IntN(3) == 0 {
+			decls = append(decls, fmt.Sprintf("#E%d", r.IntN(nDefs)))
+		}
+		// regular fields that refer to the same paths
+		if r.IntN(2) == 0 {
+			p := paths[r.IntN(len(paths))]
+			decls = append(decls, "v: "+strings.Join(p[:1+r.IntN(len(p))], "."))
+		}
+		if r.IntN(3) == 0 {
+			p := paths[r.IntN(len(paths))]
+			decls = append(decls, "u: "+strings.Join(p[:1+r.IntN(len(p))], ".")+" & "+leafStruct())
+		}
+		r.Shuffle(len(decls), func(i, j int) { decls[i], decls[j] = decls[j], decls[i] })
+		fmt.Fprintf(&b, "%s: {\n\t%s\n}\n", name, strings.Join(decls, "\n\t"))
+		if strings.HasPrefix(name, "#") {
+			fmt.Fprintf(&b, "t%d: %s & {%s}\n", t, name, leaf())
+		}
+	}
+	return b.String()
+}
